@@ -535,3 +535,132 @@ Example uni_keys_nonvacuous :
      <> uni_from_peer_encap oids N N bytes (fun k => k) toy_dh _ toy_kemkdf toy_keysched 11 33 22 p'
   /\ uni_from_author_secret oids N N bytes (fun k => k) toy_dh _ toy_kemkdf toy_keysched 11 22 33 p <> None.
 Proof. cbv zeta. repeat split; try reflexivity; vm_compute; discriminate. Qed.
+
+(** * C37, APQ topic keys *)
+Lemma apq_sites_pinned :
+  site_topic_msg_seal_ad = ("apq msg", "", ["version.to_be_bytes()[..]"; "topic.as_bytes()[..]"; "ident.enc_key.id()"; "ident.sign_key.id()"])%string
+  /\ site_topic_msg_open_ad = ("apq msg", "", ["version.to_be_bytes()[..]"; "topic.as_bytes()[..]"; "ident.enc_key.id()"; "ident.sign_key.id()"])%string
+  /\ site_topic_extract = ("APQ-v1", "topic_key_prk", ["salt=[]"; "seed"])%string
+  /\ site_topic_expand = ("APQ-v1", "topic_key_key", ["prk=prk"; "version.to_be_bytes()"; "topic"])%string
+  /\ site_topic_seal_info = ("TopicKeyRotation-v1", "", ["version=U32::new(version.as_u32())"; "topic=topic.0"])%string
+  /\ site_topic_open_info = ("TopicKeyRotation-v1", "", ["version=U32::new(version.as_u32())"; "topic=topic.0"])%string
+  /\ find_site "ReceiverPublicKey::seal_topic_key" "hpke_setup_send" framings_apq
+     = ("", "", ["rng"; "Mode::Auth(&sk.sk)"; "pk"; "[ad.as_bytes()]"])%string
+  /\ find_site "ReceiverSecretKey::open_topic_key" "hpke_setup_recv" framings_apq
+     = ("", "", ["Mode::Auth(&pk.pk)"; "enc.0"; "sk"; "[ad.as_bytes()]"])%string
+  /\ apq_aead_calls = [("seal_message", "seal", ["out"; "nonce"; "plaintext"; "ad"]);
+                       ("open_message", "open", ["dst"; "nonce"; "ciphertext"; "ad"]);
+                       ("seal_topic_key", "seal", ["mutdst"; "key.seed"; "ad"]);
+                       ("open_topic_key", "open", ["mutseed"; "ciphertext"; "ad"]);
+                       ("open_topic_key", "from_seed", ["seed"; "version"; "topic"])]%string
+  /\ apq_sender_fields = ["enc_key"; "sign_key"]%string
+  /\ find_site "SenderSigningKey::sign" "tuple_hash" framings_apq
+     = ("apq record", "", ["version.to_be_bytes()"; "topic.as_bytes()[..]"; "public().id()"; "record"])%string
+  /\ find_site "SenderVerifyingKey::verify" "tuple_hash" framings_apq
+     = ("apq record", "", ["version.to_be_bytes()"; "topic.as_bytes()[..]"; "id()"; "record"])%string
+  /\ In ("apq.rs", "TopicKeyRotationInfo", [("domain", "[u8;19]"); ("version", "U32<BE>"); ("topic", "[u8;16]")])%string repr_c_structs.
+Proof. repeat split; try reflexivity. vm_compute. tauto. Qed.
+
+Lemma tk_ad_inj oids H : (forall a b, H a = H b -> a = b) ->
+  forall c c', tk_open_ad oids H c' = tk_seal_ad oids H c -> c' = c.
+Proof.
+  intros Hinj c c' E. unfold tk_open_ad, tk_seal_ad, topic_msg_open_ad_input, topic_msg_seal_ad_input in E.
+  apply Hinj in E.
+  change (site_domain site_topic_msg_open_ad) with (site_domain site_topic_msg_seal_ad) in E.
+  apply cs_tuple_input_injective in E. destruct E as [_ E].
+  change (site_args site_topic_msg_open_ad) with ["version.to_be_bytes()[..]"; "topic.as_bytes()[..]"; "ident.enc_key.id()"; "ident.sign_key.id()"]%string in E.
+  change (site_args site_topic_msg_seal_ad) with ["version.to_be_bytes()[..]"; "topic.as_bytes()[..]"; "ident.enc_key.id()"; "ident.sign_key.id()"]%string in E.
+  cbn in E. inv E. destruct c, c'; cbn in *; congruence.
+Qed.
+Lemma tk_ad_same oids H c : tk_open_ad oids H c = tk_seal_ad oids H c.
+Proof. reflexivity. Qed.
+
+Lemma rot_info_inj s oids v t v' t' :
+  site_args s = ["version=U32::new(version.as_u32())"; "topic=topic.0"]%string ->
+  length v = length v' -> length t = length t' ->
+  hpke_info oids (info_struct_input s (rot_env v t)) = hpke_info oids (info_struct_input s (rot_env v' t')) ->
+  v = v' /\ t = t'.
+Proof.
+  unfold hpke_info, info_struct_input. intros Hs Hv Ht E. apply app_inv_tail in E. apply app_inv_head in E.
+  rewrite Hs in E. cbn [map] in E.
+  apply fixed_concat_injective_proof in E.
+  - cbn in E. inv E. auto.
+  - cbn. repeat constructor; auto.
+Qed.
+
+(** C37 for topic keys: messages sealed under a topic key round-trip and open
+    only under the same key, nonce, version, topic, sender encryption-key id
+    and sender signing-key id (each a separate component); the key of a topic
+    key is determined by (seed, version, topic); HPKE-sealed topic keys
+    round-trip and open only for the same recipient, sender, encapsulation,
+    version and topic. *)
+Definition topic_seal_open_context_stmt : Prop :=
+  forall (oids : list bytes) (H : bytes -> bytes),
+    (forall a b, H a = H b -> a = b) ->
+    (forall (AKey : Type) Seal Open (Kdf : bytes -> bytes -> AKey),
+       ideal_aead Seal Open ->
+       (forall s i s' i', Kdf s i = Kdf s' i' -> s = s' /\ i = i') ->
+       (forall key c n pt,
+          let ad := tk_seal_ad oids H c in
+          tk_open_message oids H AKey Open key c n (fst (Seal key n ad pt)) (snd (Seal key n ad pt)) = Some pt
+          /\ tk_seal_message oids H AKey Seal key c n pt = n ++ fst (Seal key n ad pt) ++ snd (Seal key n ad pt))
+       /\ (forall key c n pt key' c' n' pt',
+          let ad := tk_seal_ad oids H c in
+          tk_open_message oids H AKey Open key' c' n' (fst (Seal key n ad pt)) (snd (Seal key n ad pt)) = Some pt' ->
+          key' = key /\ t_version c' = t_version c /\ t_topic c' = t_topic c
+          /\ t_enc_id c' = t_enc_id c /\ t_sign_id c' = t_sign_id c /\ n' = n /\ pt' = pt)
+       /\ (forall seed v t seed' v' t',
+          length v = 4%nat -> length v' = 4%nat -> length t = 16%nat -> length t' = 16%nat ->
+          tk_key AKey Kdf seed v t = tk_key AKey Kdf seed' v' t' -> seed = seed' /\ v = v' /\ t = t'))
+    /\ (forall (SK PK SS KEY : Type) pub dh KemKdf (KeySched : bool -> SS -> bytes -> KEY) Seal Open,
+       @ideal_hpke SK PK SS KEY pub dh KemKdf KeySched -> ideal_ctx_aead Seal Open ->
+       (forall e s r seed v t,
+          let '(enc, (ct, tag)) := seal_topic_key oids SK PK SS pub dh KEY KemKdf KeySched Seal e s (pub r) seed v t in
+          open_topic_key oids SK PK SS pub dh KEY KemKdf KeySched Open r (pub s) enc ct tag v t = Some seed)
+       /\ (forall e s r seed v t r' pkS' enc' v' t' seed',
+          length v = length v' -> length t = length t' ->
+          let '(enc, (ct, tag)) := seal_topic_key oids SK PK SS pub dh KEY KemKdf KeySched Seal e s (pub r) seed v t in
+          open_topic_key oids SK PK SS pub dh KEY KemKdf KeySched Open r' pkS' enc' ct tag v' t' = Some seed' ->
+          r' = r /\ pkS' = pub s /\ enc' = enc /\ v' = v /\ t' = t /\ seed' = seed)).
+Lemma topic_seal_open_context_proof : topic_seal_open_context_stmt.
+Proof.
+  intros oids H Hinj. split.
+  - intros AKey Seal Open Kdf (Hcor & Hauth & Hsinj) Hk. split; [|split].
+    + intros key c n pt. cbv zeta. split.
+      * unfold tk_open_message. rewrite tk_ad_same. apply Hcor.
+      * unfold tk_seal_message. destruct (Seal key n _ pt). reflexivity.
+    + intros key c n pt key' c' n' pt'. cbv zeta. unfold tk_open_message. intros E.
+      apply Hauth in E. rewrite <- surjective_pairing in E. apply Hsinj in E.
+      destruct E as (-> & -> & Ead & ->). apply (tk_ad_inj oids H Hinj) in Ead. subst. repeat split; reflexivity.
+    + intros seed v t seed' v' t' Hv Hv' Ht Ht' E. unfold tk_key in E. apply Hk in E. destruct E as [-> E].
+      change topic_expand_info_args with ["version.to_be_bytes()"; "topic"]%string in E. cbn [map] in E.
+      apply fixed_concat_injective_proof in E.
+      * cbn in E. inv E. auto.
+      * cbn. repeat constructor; cbn; congruence.
+  - intros SK PK SS KEY pub dh KemKdf KeySched Seal Open (Hpub & Hcomm & Hkem & Hks) (Hcor & Hauth & Hsinj).
+    split.
+    + intros e s r seed v t. unfold seal_topic_key, open_topic_key, hpke_send, hpke_recv.
+      destruct (Seal _ _ seed) as [ct tag] eqn:Es.
+      change site_topic_open_info with site_topic_seal_info.
+      rewrite (Hcomm r e), (Hcomm r s).
+      match type of Es with Seal ?k ?ad _ = _ => pose proof (Hcor k ad seed) as Hc end.
+      rewrite Es in Hc. exact Hc.
+    + intros e s r seed v t r' pkS' enc' v' t' seed' Hv Ht.
+      unfold seal_topic_key, open_topic_key, hpke_send, hpke_recv.
+      destruct (Seal _ _ seed) as [ct tag] eqn:Es. intros E. apply Hauth in E. rewrite <- Es in E.
+      change site_topic_open_info with site_topic_seal_info in E.
+      apply Hsinj in E. destruct E as (Ek & _ & ->).
+      apply Hks in Ek. destruct Ek as (_ & Ess & Ei). apply Hkem in Ess. destruct Ess as [_ Ec]. inv Ec.
+      apply Hpub in H2. subst.
+      apply (rot_info_inj site_topic_seal_info oids _ _ _ _ eq_refl (eq_sym Hv) (eq_sym Ht)) in Ei.
+      destruct Ei as [-> ->]. repeat split; reflexivity.
+Qed.
+
+Example topic_keys_nonvacuous :
+  let c := {| t_version := [0; 0; 0; 3]; t_topic := repeat 5 16; t_enc_id := repeat 6 32; t_sign_id := repeat 7 32 |} in
+  let c_sign := {| t_version := [0; 0; 0; 3]; t_topic := repeat 5 16; t_enc_id := repeat 6 32; t_sign_id := repeat 6 32 |} in
+  let oids := [[1]; [2]; [3]; [4]; [5]; [6]] in
+  let sealed := toy_aead_seal 9 [1; 2] (tk_seal_ad oids (fun x => x) c) [104; 105] in
+  tk_open_message oids (fun x => x) N toy_aead_open 9 c [1; 2] (fst sealed) (snd sealed) = Some [104; 105]
+  /\ tk_open_message oids (fun x => x) N toy_aead_open 9 c_sign [1; 2] (fst sealed) (snd sealed) = None.
+Proof. vm_compute. split; reflexivity. Qed.
